@@ -567,7 +567,13 @@ func cfbRunConnSession(tr *vk.Trace, s cfbSession, classes map[string]int) {
 		if d == "ba" {
 			c = b
 		}
-		data := make([]byte, cfbPacketLen(rng))
+		id := []int32{0, 1, 0x7f, 0x80, 0x3fff, 0x4000, int32(rng.Intn(1 << 20))}[rng.Intn(7)]
+		n := cfbPacketLen(rng)
+		if rng.Intn(150) == 0 {
+			// id + payload at the protocol maximum and just below it (the frame around it is longer than that)
+			n = 2097152 - len(fvPut(nil, id)) - rng.Intn(4)
+		}
+		data := make([]byte, n)
 		if rng.Intn(2) == 0 {
 			rng.Read(data)
 		} else {
@@ -575,7 +581,6 @@ func cfbRunConnSession(tr *vk.Trace, s cfbSession, classes map[string]int) {
 				data[i] = byte(i / 7 % 5)
 			}
 		}
-		id := []int32{0, 1, 0x7f, 0x80, 0x3fff, 0x4000, int32(rng.Intn(1 << 20))}[rng.Intn(7)]
 		var err error
 		p, msg := catch(func() { err = c.WritePacket(pk.Packet{ID: id, Data: data}) })
 		if p {
